@@ -10,8 +10,9 @@ CONSTANTS
   CountAll = FALSE
   InitISRs = {{"r1"}, {"r1", "r2"}, {"r1", "r2", "r3"}, {"r1", "r2", "r3", "r4"}}
   L0 = "r1"
-  PairSels = {"cur", "sl", "prev", "next", "pep", "first"}
+  PairSels = {"cur", "sl", "prev", "next", "pep", "first", "own"}
   MaxOps = 16
   Faults = TRUE
+  EffectiveOnly = FALSE
   MaxPend = 3
 CHECK_DEADLOCK FALSE
